@@ -232,6 +232,16 @@ def setop_cases(ck, n):
         src = ('M DEFINITIONS AUTOMATIC TAGS ::= BEGIN\nTt ::= INTEGER %s\nSs ::= SEQUENCE { a INTEGER %s }\n'
                'Ll ::= SEQUENCE OF INTEGER %s\nCc ::= CHOICE { c INTEGER %s }\nEND\n' % (text, text, text, text))
         cases.append({'op': 'compile', 'sources': [src], '_s': (elems, ops, marker, paren, cons)})
+        if not paren and ck.rng.random() < 0.5:
+            # the same expression with one operand written as the inclusion of a type constrained to exactly that operand:
+            # the permitted values are the same, so the same oracle applies (no correspondence: the model has no linked inclusion)
+            j = ck.rng.randrange(k)
+            shown = [dict(e) for e in elems]
+            shown[j] = {'k': 'ref', 'name': 'Inc'}
+            text2 = G.t_constraint({'set': G.chain(shown, ops), 'ext': marker})
+            src2 = ('M DEFINITIONS AUTOMATIC TAGS ::= BEGIN\nInc ::= INTEGER (%s)\nTt ::= INTEGER %s\nSs ::= SEQUENCE { a INTEGER %s }\n'
+                    'Ll ::= SEQUENCE OF INTEGER %s\nCc ::= CHOICE { c INTEGER %s }\nEND\n' % (G.t_elem(elems[j]), text2, text2, text2, text2))
+            cases.append({'op': 'compile', 'sources': [src2], '_s': (elems, ops, marker, paren, None)})
     return cases
 
 
@@ -240,7 +250,7 @@ def judge_setop(ck, cases, results):
     for i, (c, r) in enumerate(zip(cases, results)):
         elems, ops, marker, paren, cons = c['_s']
         ck.note_case('setop:' + c['sources'][0])
-        ck.count('setop')
+        ck.count('setop' if cons is not None else 'setop-inclusion')
         if 'panic' in r or 'crash' in r:
             ck.violation('impl-crash', c['sources'][0], impl=r)
             continue
@@ -275,7 +285,7 @@ def judge_setop(ck, cases, results):
             fl = flat_term(with_marker(elems, marker and not paren), ops)
             spec_terms.append('(%s, %s, %s)' % (fl, cbool(marker), ty))
             spec_idx.append((i, pos))
-            if pos in ('component', 'alternative', 'element-inline'):
+            if cons is not None and pos in ('component', 'alternative', 'element-inline'):
                 corr_terms.append('(%s, %s)' % (clist([G.c_constraint(cons)]), ty))
                 corr_idx.append((i, pos))
     from common import coq_eval_bad_multi
